@@ -1,0 +1,15 @@
+//go:build verif
+
+package badgerstore
+
+// VerifHook, when set, is called at instrumentation points with the name of
+// the point and a point specific argument. It is only compiled in with the
+// verif build tag, and is used by external verification tooling to observe
+// and steer scheduling.
+var VerifHook func(point string, arg interface{})
+
+func verifPoint(p string, a interface{}) {
+	if h := VerifHook; h != nil {
+		h(p, a)
+	}
+}
